@@ -13,7 +13,8 @@ if "--tier" in sys.argv: tier = sys.argv[sys.argv.index("--tier") + 1]; args.rem
 # --worktree: apply in a scratch worktree of /repo HEAD instead of /repo itself (while other work uses /repo)
 TARGET = "/repo"
 if "--worktree" in sys.argv:
-    TARGET = "/tmp/seedwt-%d" % os.getpid()
+    TARGET = "/tmp/seedwt"
+    subprocess.run(["git", "-C", "/repo", "worktree", "remove", "--force", TARGET], capture_output=True)
     subprocess.run(["git", "-C", "/repo", "worktree", "add", "--detach", "-q", TARGET, "HEAD"], check=True)
 seeds = args or sorted(os.path.basename(d) for d in glob.glob("seeded/*") if os.path.isdir(d))
 st = subprocess.run(["git", "-C", TARGET, "status", "--porcelain", "--untracked-files=no"], capture_output=True, text=True).stdout.strip()
